@@ -23,6 +23,7 @@
 #define NA (N ? N : 1)
 static char DT[] = "D:r\n";
 #define DTLEN (sizeof DT - 1)
+static char RP[] = "R:s\n";
 static char UEO[] = "s@h";
 static char R0[] = "a@x", R1[] = "b@y";
 
@@ -106,8 +107,8 @@ char *qmail_close(struct qmail *qq)
   CHECK(nto == 2, "C13: all forward addresses are named before the message is committed");
   CHECK(!order_bad, "C13: qmail-queue is driven in the order message, sender, recipients, close");
   CHECK(!content_bad, "C13: the forwarded message is the Delivered-To line followed by the message, nothing else");
-  if (err_hit) CHECK(failed_marked, "C13: a message that could not be read completely is not committed");
-  else CHECK(nput == DTLEN + N, "C13: the whole message is forwarded");
+  if (err_hit) { CHECK(failed_marked, "C13: a message that could not be read completely is not committed"); }
+  else { CHECK(nput == DTLEN + N, "C13: the whole message is forwarded"); }
   if (err_hit || failed_marked) return "Zqq read error (#4.3.0)";
   return close_kind == 0 ? "" : close_kind == 1 ? "Dpermanent" : "Ztemporary";
 }
@@ -134,6 +135,7 @@ void vmain(void)
   sym_inputs();
   ASSUME(close_kind <= 2);
   dtline.s = DT; dtline.len = DTLEN; dtline.a = sizeof DT;
+  rpline.s = RP; rpline.len = sizeof RP - 1; rpline.a = sizeof RP;       /* must NOT show up in the forwarded copy */
   ueo.s = UEO; ueo.len = sizeof UEO; ueo.a = sizeof UEO;
   recips[0] = R0; recips[1] = R1; recips[2] = 0;
   mailforward(recips);
